@@ -4,7 +4,7 @@ from . import core, suites
 
 
 def check(res, thorough):
-    ok_t, ok_b, ok_h = core.prepare(res, "AscaVerif.Props.C05", thorough=thorough, extra_props=["AscaVerif.Props.C05Scan"])
+    ok_t, ok_b, ok_h = core.prepare(res, "AscaVerif.Props.C05", thorough=thorough, extra_props=["AscaVerif.Props.C05Scan", "AscaVerif.Props.C05Stress"])
     tier = "thorough" if thorough else "quick"
     if ok_h:
         s = suites.run_suite(["c05-spec", tier])
